@@ -110,6 +110,16 @@ def families(tier):
             for order in ([names] if len(names) == 1 else [names, names[::-1]]):
                 out.append(dict(prop='C16', family='c16.stop', id=f'c16/stop-{sname}-t{tmo}-p{int(par)}-h{hist}-o{"".join(order)}', cfg=cfg, params=dict(state=sname, tmo=tmo),
                                 scn=dict(buses={b: dict(parallel=par, hist=hist) for b in names}, order=order, handlers=hs, main=main, actors=[], forwards=[], settle=1.5)))
+    # a producer keeps re-feeding the bus (dispatch, await, short sleep) for 1.2 s while stop(timeout=0.3) is called: the graceful wait must give up at its deadline
+    for n, gap, hshape in itertools.product((12,), (0.1,), ('ret', 'pause')):
+        hs = [dict(bus='A', pat='X', name='hxA', prog=[('ret', 0)] if hshape == 'ret' else [('pause',)])]
+        producer = []
+        for i in range(n):
+            producer += [('disp', 'A', f'X{i}', 'await'), ('sleep', gap)]
+        for t, pre_sleep in itertools.product((0.3,), (0.0, 0.05, 0.15)):
+            main = ([('sleep', pre_sleep)] if pre_sleep else []) + [('stop', 'A', t), ('pause',)]
+            out.append(dict(prop='C16', family='c16.stop_while_refed', id=f'c16/refed-{hshape}-t{t}-s{pre_sleep}', cfg=dict(cfg, cap=3000, max_points=200), params=dict(state='refed', tmo=t),
+                            scn=dict(buses={'A': {}}, order=['A'], handlers=hs, main=main, actors=[producer], forwards=[], settle=1.5, join_actors=False)))
     # stop() called again on a bus that was already stopped (teardown code typically does), with and without a positive timeout, while a backlog is left over
     for (sname, names, hs, pre), t1, t2, gap in itertools.product(_states(deep), (None, 0), (0.3, None, 0), ('pause', 'sleep')):
         if sname not in ('backlog3', 'paused', 'paused2', 'two_buses', 'awaiting_child_A'):
@@ -161,6 +171,6 @@ def oracle(spec, res):
         if s['te'] - s['tb'] > limit:
             out.append(V('stop_took_too_long', f'stop({s["timeout"]}) took {s["te"] - s["tb"]:.3f} virtual seconds > {limit:.3f}', state=st))
         late = [en for en in tr.enters if en[2] == s['bus'] and en[0] > s['end']]
-        if late:
+        if late and st != 'refed':  # (in the re-fed family the producer keeps calling dispatch() after stop(): restart-by-dispatch is outside the statement)
             out.append(V('handler_started_after_stop_returned', f'{late[0]} (stop returned at seq {s["end"]})', state=st))
     return out
